@@ -655,7 +655,7 @@ class Explorer(object):
                         s2.env[ins.res] = self.ev(ins.ops[2], s2)
                         work.append((s2, lbl, i + 1))
                 elif op == 'alloca':
-                    st.env[ins.res] = ('alloca', fn.var_names.get(ins.res, ins.res) if False else ins.res)
+                    st.env[ins.res] = ('alloca', ins.res if depth == 0 else '%s@%s' % (ins.res, fn.name))   # slots of an inlined callee are its own
                 elif op == 'br':
                     if len(ins.targets) == 1:
                         st.prev = lbl
